@@ -46,3 +46,31 @@ Proof.
   rewrite (r1_mem_nonempty _ px Wx' Npx Ex), (r1_mem_nonempty _ py Wy' Npy Ey).
   cbn [orb]. split; assumption.
 Qed.
+
+(** exactly the premise C19_r1_expanded_sound of Proofs/C10_Rect.v: a finite non-negative margin
+    never produces NaN (inf - inf needs an infinite margin) *)
+From Geo Require Proofs.C19_Arith.
+Lemma C19_r1_expanded_sound : forall i m, wf1 i -> nonnan m -> (0 <= rank m < top) ->
+  wf1 (r1_Interval_Expanded i m) /\
+  forall p, nonnan p -> mem1 i p -> mem1 (r1_Interval_Expanded i m) p.
+Proof.
+  intros i m W Nm [H0 Ht].
+  assert (Fm : C19_Arith.fin m) by (apply C19_Arith.rank_fin; [exact Nm|pose proof top_pos; lra]).
+  assert (W' : wf1 (r1_Interval_Expanded i m)).
+  { destruct i as [lo hi]. destruct W as [Nl Nh]. unfold r1_Interval_Expanded.
+    cbn [r1_Interval_Lo r1_Interval_Hi] in *.
+    destruct (r1_Interval_IsEmpty _); [split; assumption|]. split; cbn [r1_Interval_Lo r1_Interval_Hi].
+    - apply C19_Arith.nonnan_B in Nl. unfold C19_Arith.fin in Fm. apply C19_Arith.nonnan_B.
+      rewrite Flocq.IEEE754.PrimFloat.sub_equiv.
+      destruct (Flocq.IEEE754.BinarySingleNaN.is_finite (Flocq.IEEE754.PrimFloat.Prim2B lo)) eqn:Fl.
+      + apply C19_Arith.Bminus_nonnan_fin; assumption.
+      + destruct (Flocq.IEEE754.PrimFloat.Prim2B lo); try discriminate;
+        destruct (Flocq.IEEE754.PrimFloat.Prim2B m); try discriminate; reflexivity.
+    - apply C19_Arith.nonnan_B in Nh. unfold C19_Arith.fin in Fm. apply C19_Arith.nonnan_B.
+      rewrite Flocq.IEEE754.PrimFloat.add_equiv.
+      destruct (Flocq.IEEE754.BinarySingleNaN.is_finite (Flocq.IEEE754.PrimFloat.Prim2B hi)) eqn:Fh.
+      + apply C19_Arith.Bplus_nonnan_fin; assumption.
+      + destruct (Flocq.IEEE754.PrimFloat.Prim2B hi); try discriminate;
+        destruct (Flocq.IEEE754.PrimFloat.Prim2B m); try discriminate; reflexivity. }
+  split; [exact W'|]. intros p Np Hm. apply r1_expanded_sound; assumption.
+Qed.
